@@ -312,6 +312,102 @@ def rule_resize_width_first(ctx: Ctx) -> RuleResult:
     return rr
 
 
+def rule_row_fresh(ctx: Ctx) -> RuleResult:
+    """Every row put into the grid must be a list of its own: a row object inserted twice (built once outside
+    a loop) makes later writes to one line show up on the other."""
+    from ..rules.defuse import DefUse
+
+    p = ctx.p
+    rr = RuleResult("ALIAS", "C15.4c", "every row inserted into the grid is created per insertion (no list object shared between two grid rows)", floor=6)
+    tc = p.cls(f"{VT}.TermCanvas")
+    for fi in p.all_class_functions(tc):
+        sites = []
+        for n in fi.own_nodes():
+            if isinstance(n, ast.Call) and isinstance(n.func, ast.Attribute) and ast.unparse(n.func.value) == "self.term" and n.func.attr in ("insert", "append") and n.args:
+                sites.append((n, n.args[-1]))
+            elif isinstance(n, ast.Assign) and len(n.targets) == 1 and isinstance(n.targets[0], ast.Subscript) and ast.unparse(n.targets[0].value) == "self.term" and not isinstance(n.targets[0].slice, ast.Slice):
+                sites.append((n, n.value))
+        if not sites:
+            continue
+        du = DefUse(fi)
+        cfg = du.cfg
+        for site, val in sites:
+            at = du.node_of(site)
+            if at is None:
+                continue
+            ident = f"{short(fi)}:{norm(site, 50)}"
+            loops = [h for h in cfg.nodes if (h.kind == "for" or (h.kind == "test" and isinstance(h.stmt, ast.While))) and at in cfg.reachable_from_edges([(h, "T")], avoid=[h]) and h in cfg.reachable([at])]
+            ok = True
+            why = ""
+            if isinstance(val, ast.Name):
+                for v, how, dn in du.reaching(val.id, at):
+                    fresh = isinstance(v, (ast.Call, ast.List, ast.ListComp, ast.BinOp)) or (isinstance(v, ast.Subscript) and isinstance(v.slice, ast.Slice))
+                    if isinstance(v, ast.Call) and isinstance(v.func, ast.Attribute) and v.func.attr in ("pop", "popleft"):
+                        fresh = True  # ownership moves out of the other container
+                    in_same_iteration = all(dn in cfg.reachable_from_edges([(h, "T")], avoid=[h]) for h in loops)
+                    if how in ("augassign",):
+                        continue
+                    if not fresh:
+                        ok, why = False, f"`{val.id}` is bound to `{norm(v, 40) if v is not None else how}`, not to a newly created list"
+                    elif loops and not in_same_iteration:
+                        ok, why = False, f"`{val.id}` is created once (before the loop) and inserted on every iteration"
+            elif isinstance(val, (ast.Attribute,)):
+                ok, why = False, f"`{norm(val, 40)}` is an existing object"
+            elif isinstance(val, ast.Subscript) and not isinstance(val.slice, ast.Slice):
+                ok, why = False, f"`{norm(val, 40)}` is an existing row"
+            rr.inst(ident, True, {"function": short(fi), "site": norm(site, 60), "fresh_per_insertion": ok} if len(rr.samples) < 5 else None)
+            if not ok:
+                rr.add(finding("ALIAS", fi, site, f"`{norm(site, 60)}`: {why}; two grid rows then share one list, so output on one line appears on the other and a later widening resize extends the shared row twice", construct=f"shared row object: {norm(site, 60)}"))
+    return rr
+
+
+def rule_resize_state_order(ctx: Ctx) -> RuleResult:
+    p = ctx.p
+    rr = RuleResult("ORDER", "C15.4d", "in resize(), helpers that read self.width / self.height are called only after the new value was stored", floor=4)
+    tc = p.cls(f"{VT}.TermCanvas")
+    fi = p.func(f"{VT}.TermCanvas.resize")
+    cfg = cfg_of(fi)
+
+    def reads(attr, f, depth=0, seen=None):
+        seen = seen if seen is not None else set()
+        if f.qualname in seen or depth > 3:
+            return False
+        seen.add(f.qualname)
+        for n in f.own_nodes():
+            if isinstance(n, ast.Attribute) and n.attr == attr and isinstance(n.value, ast.Name) and n.value.id == f.self_name and isinstance(n.ctx, ast.Load):
+                return True
+            if isinstance(n, ast.Call) and isinstance(n.func, ast.Attribute) and isinstance(n.func.value, ast.Name) and n.func.value.id == f.self_name:
+                g = p.find_member(tc, n.func.attr)
+                if g and g[0] == "method" and reads(attr, g[1], depth + 1, seen):
+                    return True
+        return False
+
+    for attr, prm in (("width", fi.params[1]), ("height", fi.params[2])):
+        stores = []
+        for n in cfg.nodes:
+            a = n.ast
+            if isinstance(a, ast.Assign):
+                for t in a.targets:
+                    if isinstance(t, ast.Attribute) and t.attr == attr and ast.unparse(a.value) == prm:
+                        stores.append(n)
+                    elif isinstance(t, ast.Tuple) and isinstance(a.value, ast.Tuple):
+                        for te, ve in zip(t.elts, a.value.elts):
+                            if isinstance(te, ast.Attribute) and te.attr == attr and ast.unparse(ve) == prm:
+                                stores.append(n)
+        for n in cfg.nodes:
+            if n.ast is None or n.kind in ("for", "with", "handler"):
+                continue
+            for c in walk_no_nested(n.ast):
+                if isinstance(c, ast.Call) and isinstance(c.func, ast.Attribute) and isinstance(c.func.value, ast.Name) and c.func.value.id == fi.self_name:
+                    g = p.find_member(tc, c.func.attr)
+                    if not (g and g[0] == "method") or not reads(attr, g[1]):
+                        continue
+                    rr.inst(f"{attr}:{norm(c, 40)}@{n.lineno - fi.node.lineno}", True, {"call": norm(c, 50), "reads": f"self.{attr}"} if len(rr.samples) < 6 else None)
+                    if not stores or not cfg.dominated(n, stores):
+                        rr.add(finding("ORDER", fi, n.stmt, f"`{norm(c, 50)}` reads self.{attr}, but on some path resize() calls it before `self.{attr} = {prm}`: it still works with the old {attr} (rows of the old width, tab stops / scroll region for the old size)", construct=f"{c.func.attr}() before self.{attr} is stored"))
+    return rr
+
+
 def run(ctx: Ctx):
     p = ctx.p
     tc = f"{VT}.TermCanvas"
@@ -328,6 +424,8 @@ def run(ctx: Ctx):
         kind.run_kind(p, "C15.6", [VT], floor=3),
         rule_nullable_args(ctx),
         rule_resize_width_first(ctx),
+        rule_row_fresh(ctx),
+        rule_resize_state_order(ctx),
     ]
     return out
 
@@ -341,5 +439,7 @@ MUTANTS = [
     Mut("resize-width-stored-late", _V, "TermCanvas.resize", "        self.width = width\n\n        if height > self.height:", "        if height > self.height:", "ORDER|vterm.TermCanvas.resize"),
     Mut("cursor-set-unclamped", _V, "TermCanvas.set_term_cursor", "self.term_cursor = self.constrain_coords(x, y)", "self.term_cursor = (x, y)", "WRITER|"),
     Mut("insert-chars-unbalanced", _V, "TermCanvas.insert_chars", "            self.term[y].insert(x, char_spec)\n            self.term[y].pop()\n", "            self.term[y].insert(x, char_spec)\n", "PAIR|"),
+    Mut("remove-lines-shared-blank", _V, "TermCanvas.remove_lines", "        while lines > 0:\n            self.term.pop(row)\n            self.term.insert(self.scrollregion_end, self.empty_line())", "        blank = self.empty_line()\n        while lines > 0:\n            self.term.pop(row)\n            self.term.insert(self.scrollregion_end, blank)", "ALIAS|vterm.TermCanvas.remove_lines"),
+    Mut("tabstops-before-width", _V, "TermCanvas.resize", "        if width > self.width:\n            # grow\n", "        if width > self.width:\n            self.init_tabstops(extend=True)\n            # grow\n", "ORDER|vterm.TermCanvas.resize"),
     Mut("twin-csi-sanitise-enumerate", _V, "TermCanvas.parse_csi", "            for i in range(len(escbuf)):\n                if escbuf[i] is None or escbuf[i] == 0:\n                    escbuf[i] = default_value", "            for i, _v in enumerate(escbuf):\n                if escbuf[i] is None or escbuf[i] == 0:\n                    escbuf[i] = default_value", twin=True),
 ]
